@@ -5895,6 +5895,27 @@ impl<
 		)
 	}
 
+	/// verif hook (add-only): see `OutboundPayments::verif_send_with_hash_and_keysend`.
+	#[cfg(feature = "verif_hooks")]
+	pub(crate) fn verif_send_with_hash_and_keysend(
+		&self, route: &Route, payment_hash: PaymentHash, recipient_onion: RecipientOnionFields,
+		keysend_preimage: Option<PaymentPreimage>, payment_id: PaymentId,
+	) -> Result<(), crate::ln::outbound_payment::PaymentSendFailure> {
+		let best_block_height = self.best_block.read().unwrap().height;
+		let _persistence_guard = PersistenceNotifierGuard::notify_on_drop(self);
+		self.pending_outbound_payments.verif_send_with_hash_and_keysend(
+			route,
+			payment_hash,
+			recipient_onion,
+			keysend_preimage,
+			payment_id,
+			&self.entropy_source,
+			&self.node_signer,
+			best_block_height,
+			|args| self.send_payment_along_path(args),
+		)
+	}
+
 	#[cfg(any(test, feature = "_externalize_tests"))]
 	pub(crate) fn test_add_new_pending_payment(
 		&self, payment_hash: PaymentHash, recipient_onion: RecipientOnionFields,
